@@ -42,6 +42,19 @@ type Transport struct {
 	// Block, when set, is used by Read instead of waiting on the condition variable: it must return
 	// once ready() holds (the cooperative controller parks the goroutine meanwhile).
 	Block func(ready func() bool)
+	// Stall, when set, makes every Write / Writev wait until the transport has been closed (a peer that does not
+	// read: the call can only end with the connection); it must return once ready() holds.
+	Stall func(ready func() bool)
+}
+
+func (t *Transport) stall() {
+	if t.Stall != nil {
+		t.Stall(func() bool {
+			t.mu.Lock()
+			defer t.mu.Unlock()
+			return t.closed
+		})
+	}
 }
 
 type addr struct{}
@@ -123,6 +136,7 @@ func (t *Transport) Read(p []byte) (int, error) {
 }
 
 func (t *Transport) Write(p []byte) (int, error) {
+	t.stall()
 	t.mu.Lock()
 	defer t.mu.Unlock()
 	t.nWrite++
@@ -144,6 +158,7 @@ func (t *Transport) Write(p []byte) (int, error) {
 }
 
 func (t *Transport) Writev(bufs transport.Buffers) (int64, error) {
+	t.stall()
 	t.mu.Lock()
 	defer t.mu.Unlock()
 	t.nWrite++
